@@ -290,3 +290,32 @@ func (d *gdriver) randomLegalOp() (string, error) {
 		return "move", err
 	}
 }
+
+// buildWide makes hub <- n groups <- one node placed below every one of the groups (more than a thousand ways up
+// from the node). Every further placement costs the store a walk over all earlier ones, so this takes minutes for
+// n > 1000: thorough tier only.
+func buildWide(d *gdriver, root string, n int, nodeType string) (hub string, groups []string, p string, err error) {
+	if hub, err = d.create(root, "group", false); err != nil {
+		return
+	}
+	for k := 0; k < n; k++ {
+		var g string
+		if g, err = d.create(hub, "group", false); err != nil {
+			return
+		}
+		groups = append(groups, g)
+	}
+	if p, err = d.create(groups[0], nodeType, false); err != nil {
+		return
+	}
+	for k := 1; k < n; k++ {
+		var e string
+		if e, err = d.sendEdge(p, groups[k], data.Points{{Type: data.PointTypeTombstone, Time: d.now()}, {Type: data.PointTypeNodeType, Text: nodeType}}); err != nil || e != "" {
+			if err == nil {
+				err = fmt.Errorf("placement %d refused: %s", k+1, e)
+			}
+			return
+		}
+	}
+	return
+}
